@@ -417,6 +417,17 @@ def systematic(col):
         for items in itertools.permutations([0, 1, 2, 3, 4, 5], 4):
             col.case(('agg-orders', name, tuple(i % 3 for i in items)), True)
             judge(col, node, list(items), call(G, list(items), Group(build_spec(node))), '', {'items': items})
+    # zero-like running aggregates followed by smaller / larger items (falsy accumulator values)
+    for name in ['Max', 'Min', 'Sum', 'Avg', 'First', 'Count']:
+        for keyname, keyfn, keyspec in [('const', lambda t: 'all', lambda t: 'all'), ('sign', lambda t: t >= 0, lambda t: t >= 0)]:
+            node = ('dict', [((keyname, keyfn, keyspec), ('agg', name))])
+            for items in itertools.permutations([-3, -1, 0, 0.0, 2], 3):
+                col.case(('agg-zero', name, keyname, items), True)
+                judge(col, node, list(items), call(G, list(items), Group(build_spec(node))), '', {'items': items})
+            bare = ('agg', name)
+            for items in itertools.permutations([-2, 0, -5, False], 3):
+                col.case(('agg-zero-bare', name, items), True)
+                judge(col, bare, list(items), call(G, list(items), Group(build_spec(bare))), '', {'items': items})
     for n in range(1, 6):
         for node in [('limit', n, None), ('limit', n, ('dict', [(('T%2', lambda t: t % 2, T % 2), ('list', [('T', lambda t: t, T)]))])),
                      ('limit', n, ('agg', 'Max'))]:
